@@ -39,6 +39,7 @@ CPU_MODES = [
     {"name": "cpu3", "prefix": taskset(3)},
     {"name": "cpu5-procs2", "prefix": taskset(5), "env": {"GOMAXPROCS": "2"}},
     {"name": "cpu16-procs4", "env": {"GOMAXPROCS": "4"}},
+    {"name": "cpu4-procs9", "prefix": taskset(4), "env": {"GOMAXPROCS": "9"}},  # more Ps than CPUs
 ]
 
 CPU_MODES_THOROUGH = CPU_MODES + [
@@ -77,7 +78,8 @@ PROPS = {
     "C12": dict(ties=['Execute'], level="other", race=True, workers=1, model_workers=16,
                 modes=[{"name": "conc8-race", "args": ["-conc", "8"]},
                        {"name": "conc16-procs2-race", "args": ["-conc", "16"], "env": {"GOMAXPROCS": "2"}},
-                       {"name": "conc4-procs1-race", "args": ["-conc", "4"], "env": {"GOMAXPROCS": "1"}}],
+                       {"name": "conc4-procs1-race", "args": ["-conc", "4"], "env": {"GOMAXPROCS": "1"}},
+                       {"name": "conc4-cpu3-procs7-race", "args": ["-conc", "4"], "prefix": taskset(3), "env": {"GOMAXPROCS": "7"}}],
                 rule="mixed API histories (commit, multiproof create+verify, IPA, MSM, group programs, batch helpers, transcripts, decoders, DivideOnDomain, serde) issued from 4/8/16 goroutines sharing one IPAConfig, race detector on, GOMAXPROCS 1/2/16; every output must equal the sequential model output.",
                 explanation="Protocol-level theorems (order independence of every merge, no deadlock / all results delivered for the fan-out/fan-in skeletons) are proved on the model; absence of data races and real scheduling are runtime facts sampled with the Go race detector, not proved."),
     "C13": dict(level="proof", workers=1, model_workers=16,
